@@ -1,7 +1,7 @@
 (* Correspondence for C04: run Model/Transforms.v on the inputs given to the implementation (plus the recorded
    oracle answers) and compare with the implementation's outputs: bit-exact on Z, toleranced on Q. *)
 From Coq Require Import List Arith ZArith QArith Qabs Qround Bool.
-From TLV Require Import Base.Shape Base.PyList Base.Tensor Base.Ops Model.Transforms Model.TransformsApi Model.TransformsHeap Model.TransformsCplx Model.TransformsRT Model.TransformsTkObj Model.TransformsPfHeap Corr.Common.
+From TLV Require Import Base.Shape Base.PyList Base.Tensor Base.Ops Model.Transforms Model.TransformsApi Model.TransformsHeap Model.TransformsCplx Model.TransformsRT Model.TransformsTkObj Model.TransformsPfHeap Model.TransformsTkObj8 Model.TransformsPfObj Corr.Common.
 Import ListNotations.
 
 Fixpoint list_eqb {A} (eqb : A -> A -> bool) (a b : list A) : bool :=
@@ -135,6 +135,13 @@ Definition gtk_dense_eqb (a b : tensor (Z * Z) * list (mat (Z * Z))) : bool :=
 Definition order3b {F} (cores : list (tensor F)) : bool := forallb (fun G => Nat.eqb (length (shape G)) 3) cores.
 
 (* TuckerTensor objects on the heap (Model/TransformsTkObj.v): the harness's object is cell 0 of the heap built from its core, arrays and list *)
+(* round 8: Parafac2Tensor objects: shape attribute, rank attribute, (weights, factors, projections) held *)
+Definition pf_obs := (list (list nat) * nat * (list Z * list (mat Z) * list (mat Z)))%type.
+Definition pf_observe (h : poheap (F:=Z)) (cells : list pcell) (o : nat) : pf_obs :=
+  (pc_shape (pcellr cells o), pc_rank (pcellr cells o), pobj_read h cells o).
+Definition pfobs_eqb (a b : pf_obs) : bool :=
+  let '(sa, ra, (wa, fa, pa)) := a in let '(sb, rb, (wb, fb, pb)) := b in
+  list_eqb (list_eqb Nat.eqb) sa sb && Nat.eqb ra rb && z_list_eqb wa wb && list_eqb zmat_eqb fa fb && list_eqb zmat_eqb pa pb.
 Definition tk_obs (F : Type) := (list nat * list nat * (tensor F * list (mat F)))%type.      (* shape attribute, rank attribute, (core, factors) held *)
 Definition tk_observe {F} (th : theap (F:=F)) (cells : list tcell) (o : nat) : tk_obs F :=
   (tc_shape (tcellr cells o), tc_rank (tcellr cells o), tobj_read th cells o).
@@ -210,6 +217,8 @@ Inductive body :=
 | QTkObjNorm (tape : list (list Q)) (core : tensor Q) (arrs : list (mat Q)) (ls : list nat) (expected : res (tk_obs Q))
 | ZTkObjSet (core : tensor Z) (arrs : list (mat Z)) (ls newls : list nat) (expected : res (tk_obs Z * bool))
 | ZTkObjCopy (core : tensor Z) (arrs : list (mat Z)) (ls : list nat) (expected : res (tk_obs Z)) (shares : bool)
+| ZPfObjDecomp (w : list Z) (fs : list (mat Z)) (arrs : list (mat Z)) (ls : list nat) (Ls : list (option (mat Z))) (expected : res (pf_obs * pf_obs))
+| ZTkObjSetIdx (idx : nat) (core newcore : tensor Z) (arrs : list (mat Z)) (ls newls : list nat) (expected : res (tk_obs Z * bool)) (reads_back : bool)
 | QAlign (norm_t : bool) (rw : list Q) (rfs : list (mat Q)) (tw : list Q) (tfs : list (mat Q)) (tA tB : list (list Q)) (perm : list nat).
 
 Definition agree_body (b : body) : bool :=
@@ -445,6 +454,35 @@ Definition agree_body (b : body) : bool :=
           match tucker_setitem_h cells0 o 1%nat 1%nat, e with
           | Ok cells1, Ok (eo, valid) =>
               zobs_eqb ztk_struct_eqb (tk_observe th0 cells1 o) eo && Bool.eqb (let '(c, fs) := tobj_read th0 cells1 o in tucker_okb c fs) valid
+          | Err, Err => true
+          | _, _ => false
+          end
+      end
+  | ZPfObjDecomp w fs arrs ls Ls e =>
+      (* round 8: svd_decompress_parafac2_tensor on a Parafac2Tensor OBJECT whose projection list may name one array for several slices:
+         the result object (attributes and contents) and the operand object afterwards (untouched) *)
+      let h0 := mk_poheap [w] [fs] (mk_pheap arrs [ls]) in
+      match pf2_new_h Zops Z.eqb h0 [] 0%nat 0%nat 0%nat with
+      | Err => match e with Err => true | Ok _ => false end
+      | Ok (cells0, o) =>
+          match svd_decompress_obj_h Zops Z.eqb h0 cells0 o Ls, e with
+          | Ok (h', cells', o'), Ok (er, eo) => pfobs_eqb (pf_observe h' cells' o') er && pfobs_eqb (pf_observe h' cells' o) eo
+          | Err, Err => true
+          | _, _ => false
+          end
+      end
+  | ZTkObjSetIdx idx core newcore arrs ls newls e reads_back =>
+      (* round 8: obj[idx] = value for ANY index; value = the core at location 1 (idx 0) / the list at location 1 (idx 1); other indices
+         are refused; afterwards obj[idx] and unpacking hand out the assigned reference *)
+      let th0 := mk_theap [core; newcore] arrs [ls; newls] in
+      match tucker_new_h th0 [] 0%nat 0%nat with
+      | Err => match e with Err => true | Ok _ => false end
+      | Ok (cells0, o) =>
+          match tucker_setitem_h cells0 o idx 1%nat, e with
+          | Ok cells1, Ok (eo, valid) =>
+              zobs_eqb ztk_struct_eqb (tk_observe th0 cells1 o) eo && Bool.eqb (let '(c, fs) := tobj_read th0 cells1 o in tucker_okb c fs) valid &&
+              Bool.eqb reads_back (match tucker_getitem_h cells1 o idx with Ok l => Nat.eqb l 1%nat | Err => false end &&
+                                   Nat.eqb (nth idx (tucker_iter_h cells1 o) 99%nat) 1%nat)
           | Err, Err => true
           | _, _ => false
           end
